@@ -287,8 +287,9 @@ class RandGen:
         rng = self.rng
         depth = depth or rng.choice([1, 1, 2, 2, 3])
         q = [self.cmp()]
+        spell = {"and": ["and", "and", "&&", "AND", "And"], "or": ["or", "or", "||", "OR", "Or"]}
         for i in range(1, depth):
-            q.append(self.cmp(conn=rng.choice(conns)))
+            q.append(self.cmp(conn=rng.choice(spell[rng.choice(conns)])))
         if last_indexed:
             q[-1] = dict(self.cmp(fields=last_indexed), **({"conn": q[-1]["conn"]} if "conn" in q[-1] else {}))
         return q
@@ -358,9 +359,13 @@ def order_test(uni, rng, idx, nobj=8, nq=8, cfgs=None):
         h += 1
         q = g.chain(depth=rng.choice([1, 1, 2, 3]), last_indexed=idxf, conns=("and",)) if rng.random() < 0.8 else g.chain()
         ops.append({"op": "eval", "h": h, "q": q})
-        what = "one" if rng.random() < 0.25 else "collect"
+        what = rng.choice(["one", "assignone", "assignunique", "assign", "expects", "expectszn", "collect", "collect", "collect", "collect"])
         lim = rng.choice([-1, -1, 0, 1, 2, 3, nobj - 1, nobj, nobj + 1, 1 << 30])
-        ops.append({"op": "collect", "h": h, "rev": rng.random() < 0.4, "lim": -1 if what == "one" else lim, "what": what})
+        op = {"op": "collect", "h": h, "rev": rng.random() < 0.4, "lim": -1 if what in ("one", "assignone", "assignunique") else lim, "what": what}
+        if what in ("expects", "expectszn"):
+            op["n"] = rng.choice([0, 1, 2, 3, nobj])
+            op["lim"] = -1
+        ops.append(op)
     ops.append({"op": "obs", "qs": [g.chain(last_indexed=idxf, conns=("and",)) for _ in range(6)]})
     return {"id": "ord%d" % idx, "cfg": make_cfg(c[0], c[1], rng.randrange(len(STORAGE))), "ops": ops, "fields": ["K", "S"] + g.flds}
 
